@@ -19,6 +19,18 @@ CHECKS = {
  "C14": dict(technique="Coq proof: certified checker for emission orders (closure = reachability, duplicate-free, complete, dependencies first) and certified cycle / acyclicity certificates, evaluated by vm_compute on the order the real sort_classes emits",
              text="Theorems (closed): the checker's closure is exactly reachability through fields/items/ref targets/union members/_depends_on; an accepted order is duplicate-free, is exactly the reachable API-bearing classes and puts every class after all it uses; a valid order excludes cycles; cycle and rank certificates are sound. Real classes are generated (exhaustive small graphs incl. cyclic, random larger ones), the real sort_classes output is judged inside Coq, and a sample is really compiled with cffi (supporting).",
              ref="DESIGN.md §7 C14", note=TB + " 'The emitted source compiles' is a runtime fact checked by real cffi builds on a sample (supporting test, not a theorem)."),
+ "C05": dict(technique="Coq: the documented format as encoder + strict decoder (Format.v); round-trip theorems; certified judgement layout_ok evaluated by vm_compute on the bytes of every constructed object",
+             text="The documented layout is formalised as an encoder and an independent strict decoder (validates every size word, stride, offset table, string padding). Proved (closed): header-word codec, slot arithmetic, decode(encode) for leaves at any offset of any buffer, images embedded in a buffer decode where they sit, soundness of the judgement. decode(encode) for compound types is evaluated in Coq on examples and on every generated case (the general induction over the type grammar is staged). Tie: the bytes of every object the real library constructs must match the documented image under the defined-bytes mask AND be decoded back to the value by the independent decoder, inside Coq.",
+             ref="DESIGN.md §7 C05"),
+ "C01": dict(technique="Coq: reader of the documented format returns the written value (leaves proved, strides/axis-permutation lemma proved for all ranks); correspondence: every accessor of every constructed object compared with the input, bytes judged by layout_ok in Coq",
+             text="Theorems (closed): read-back of leaves at any placement incl. the capacity form; N-D any-axis-order addressing (strides_permute, position bijection) for all ranks. Tie: generated (type, value, input form, placement, buffer history) cases on both CPU buffer kinds: every field/item/nested accessor and to_nparray compared bit-exactly with the input; the object's bytes are judged against the documented format in Coq.",
+             ref="DESIGN.md §7 C01"),
+ "C03": dict(technique="Coq: frame lemma for writes, nesting/disjointness of sub-images, size = extent via the certified judgement; correspondence: whole-buffer diff around every constructed object placed among poisoned bytes and live neighbours",
+             text="Theorems (closed): a write of an image changes exactly its extent; an image that is a concatenation of parts sits in memory iff the parts sit at consecutive offsets (nested, disjoint); accepted observations have reported size = image length. Tie: every byte outside the object's extent and outside regions it allocated must be unchanged (poison-filled buffers with live neighbours), reported size = stored size = allocated length.",
+             ref="DESIGN.md §7 C03"),
+ "C06": dict(technique="Coq: the decoder is a function of the bytes only (same value wherever and through whichever handle); strides lemma; correspondence: handle vs view rebuilt from (buffer, offset) compared on values, size, shape, strides, every item/field offset",
+             text="Theorems (closed): decoding depends on the bytes only (leaves), stride addressing for any axis order. Tie: for every constructed object a view made by _from_buffer(buffer, offset) is compared with the constructor's handle on every observable (values at every index, _size, _shape, _strides, all item and field offsets); nested compounds are reached through views by construction of the read-back.",
+             ref="DESIGN.md §7 C06"),
 }
 NOT_YET = {}
 def main():
